@@ -243,6 +243,25 @@ PROPS['C04'] = {
 }
 for _u in PROPS['C04']['units']:
     PROPS['C07']['units'].append(_u)
+PROPS['C15'] = {
+    'units': ['doc_kotlin', 'doc_swift', 'doc_scala', 'doc_go'],
+    'title': 'documentation text is carried only inside comments of the generated code (line-comment kernel)',
+    'technique': 'Verus postconditions on write_comment / write_comments of the four line-comment back ends (Kotlin, Swift, Scala, Go; extracted '
+                 'verbatim) over a ghost text sink: the writeln! site through a contract generated from its literal, the marker taken from the literal '
+                 'itself; str::split on line breaks as iteration over break-free pieces',
+    'level_text': 'For every doc string (any characters: line feeds, carriage returns, comment terminators, quote sequences, backslashes), any '
+                  'indentation and any number of comments: the text the writer appends is a sequence of whole lines, each of the form indentation + a '
+                  'marker starting with `//` + text without a line break + line feed - so every byte of the doc text lies between `//` and the end of its '
+                  'line and cannot become code.',
+    'level_note': 'Kernel: the comment writers of Kotlin, Swift, Scala and Go. TypeScript (block comment, `*/` written `*\\/`) and Python (docstring, '
+                  '`\"\"\"` escaped; `#` comments per line) build their comment with replace / join chains: NOT proved, bounded stand-in doc-search only. '
+                  'That every doc string of the source reaches a writer and is reproduced completely is syn code (stand-in). Assumed: str::split yields '
+                  'pieces without separator characters; "\\t".repeat(n) is indentation; trim_end introduces no line break; std::fmt `{}` semantics.',
+    'design_ref': 'DESIGN.md section 10.11',
+    'bounded': ['docsearch'],
+}
+for _u in PROPS['C15']['units']:
+    PROPS['C07']['units'].append(_u)
 PROPS['C03']['bounded'] = ['merge', 'tos']
 PROPS['C06']['bounded'] = ['merge', 'cli_determinism']
 PROPS['C11']['bounded'] = ['topo', 'deps']
@@ -253,7 +272,7 @@ PROPS['C18']['bounded'] = ['kint']
 PROPS['C20']['bounded'] = ['cfg_all', 'cli_config']
 PROPS['C07']['bounded'] = ['rename', 'topo', 'cli_robust']
 
-NOT_APPLICABLE = {k: NA_TEXT for k in ['C08', 'C10', 'C12', 'C14', 'C15', 'C19']}
+NOT_APPLICABLE = {k: NA_TEXT for k in ['C08', 'C10', 'C12', 'C14', 'C19']}
 
 ALL_UNITS = sorted({u for p_ in PROPS.values() for u in p_.get('units', [])})
 ALL_KANI = ['kint']
